@@ -336,8 +336,45 @@ fn daemon_failures(cfg: &Cfg) {
     }
 }
 
+/// A kick descriptor the worker's epoll set refuses (a regular file), given to a ring that is already started
+/// and enabled: the daemon cannot register it, so the frontend call must return an error.
+fn unpollable_kick(cfg: &Cfg) {
+    use std::os::unix::io::{FromRawFd, IntoRawFd};
+    use vhost::VhostBackend;
+    use vhost::vhost_user::VhostUserFrontend;
+    type V = VringRwLock<dmn::Mem>;
+    let bc = dmn::BCfg { num_queues: 1, masks: vec![1], ..dmn::BCfg::default() };
+    let mut s: dmn::Sess<V> = dmn::Sess::new(bc);
+    let mut fe = s.connect(1);
+    let pf = s.be.cfg.protocol_features | common::spec::PF_REPLY_ACK;
+    if let Err(e) = dmn::negotiate(&mut fe, dmn::NEG_FEATURES_PF | 3, pf) {
+        report::inconclusive(&format!("negotiate: {e}"));
+        return;
+    }
+    let good = vmm_sys_util::eventfd::EventFd::new(libc::EFD_NONBLOCK).expect("eventfd");
+    if fe.set_vring_kick(0, &good).is_err() || fe.set_vring_enable(0, true).is_err() {
+        report::inconclusive("unpollable-kick: set-up");
+        return;
+    }
+    let file = sys::memfd("not-pollable", 4096);
+    let bad = unsafe { vmm_sys_util::eventfd::EventFd::from_raw_fd(file.into_raw_fd()) };
+    let r = fe.set_vring_kick(0, &bad);
+    report::eval(1);
+    report::count("daemon.unpollable_kick", 1);
+    report::distinct_str("daemon-fail:unpollable-kick");
+    let detail = jo! {"operation" => "set_vring_kick", "descriptor" => "a regular file (epoll_ctl refuses it)", "ring" => "started and enabled", "frontend_call" => format!("{:?}", r.as_ref().map_err(|e| format!("{e:?}")))};
+    if r.is_ok() {
+        report::violation("C03:daemon:set_vring_kick:descriptor-cannot-be-polled:success-on-failure", detail, cfg.replay("daemon-failures"));
+    } else {
+        report::sample("daemon-fail-unpollable-kick", detail);
+    }
+    drop(fe);
+    let _ = s.daemon.wait();
+}
+
 pub fn run(cfg: &Cfg) {
     if cfg.shard == 0 || cfg.only.as_deref() == Some("daemon-failures") {
+        unpollable_kick(cfg);
         daemon_failures(cfg);
     }
     report::assume("the recording device implements VhostUserBackendMut; every adapter the library provides for it (Mutex, RwLock, and Arc around both) is driven through the VhostUserBackend trait");
